@@ -10,22 +10,27 @@
 (***************************************************************************)
 EXTENDS MRContract, Json
 
-CONSTANT Orders   \* subset of {"cancel-before-write", "ctx-before-write"}: directed scenarios to add
+CONSTANT Orders   \* subset of {"cancel-before-write", "ctx-before-write", "workers-held"}: directed scenarios to add
 
-VARIABLES sc, ord  \* ord = "": plain scenario; else the ordering the driver establishes before the reducer writes
+VARIABLES sc, ord  \* ord = "": plain scenario; else what the driver establishes while the call runs (MRContract!Directed)
 
 GInit == \/ IsScenario(sc) /\ ord = ""
-         \/ \E o \in Orders, a \in {"MapReduce", "MapReduceChan"}, w \in 1..2,
+         \/ \E o \in Orders \cap {"cancel-before-write", "ctx-before-write"}, a \in {"MapReduce", "MapReduceChan"}, w \in 1..2,
                b1 \in {"cancelE", "cancelNil", "w0", "w1"}, b2 \in {"w0", "w1"}, c \in {"bg", "during"} :
               /\ sc = [api |-> a, n |-> 2, workers |-> w, mb |-> <<b1, b2>>, rstop |-> 0, rw |-> 1, rend |-> "ret",
                         genk |-> -1, ctx |-> c]
+              /\ ord = o /\ Directed(sc, o)
+         \/ \E o \in Orders \cap {"workers-held"}, a \in {"MapReduce", "MapReduceChan", "MapReduceVoid", "ForEach"},
+               n \in 3..4, w \in 1..2, b \in {"w0", "w1"} :
+              /\ sc = [api |-> a, n |-> n, workers |-> w, mb |-> [i \in 1..n |-> b], rstop |-> -1,
+                        rw |-> (IF a \in {"MapReduce", "MapReduceChan"} THEN 1 ELSE 0), rend |-> "ret", genk |-> -1, ctx |-> "bg"]
               /\ ord = o /\ Directed(sc, o)
 GNext == UNCHANGED <<sc, ord>>
 GSpec == GInit /\ [][GNext]_<<sc, ord>>
 
 CaseOf(s) == [order |-> ord, api |-> s.api, n |-> s.n, workers |-> s.workers, mb |-> s.mb, rstop |-> s.rstop, rw |-> s.rw,
               rend |-> s.rend, genk |-> s.genk, ctx |-> s.ctx,
-              allowed |-> IF ord = "" THEN Outcomes(s) ELSE OrderedOutcomes(s),
+              allowed |-> IF ord \in {"cancel-before-write", "ctx-before-write"} THEN OrderedOutcomes(s) ELSE Outcomes(s),
               mapAll |-> MustMapAll(s), deliverAll |-> MustDeliverAll(s),
               written |-> Written(s),
               late |-> HasLate(s),
@@ -35,5 +40,5 @@ CaseOf(s) == [order |-> ord, api |-> s.api, n |-> s.n, workers |-> s.workers, mb
                          ELSE IF s.mb[k - 1] \in {"cancelE", "cancelNil"} THEN ErrOf(s, k - 1) ELSE ""]]
 
 Emit == PrintT(ToJson(CaseOf(sc)))
-SaneInv == Sane(sc) /\ (ord # "" => (OrderedOutcomes(sc) # {} /\ OrderedOutcomes(sc) \subseteq Outcomes(sc)))
+SaneInv == Sane(sc) /\ (ord \in {"cancel-before-write", "ctx-before-write"} => (OrderedOutcomes(sc) # {} /\ OrderedOutcomes(sc) \subseteq Outcomes(sc)))
 =============================================================================
